@@ -59,10 +59,13 @@ theorem InvA.of_core {cfg : Cfg} {s s' : St} (h : core s' = core s) (i : InvA cf
   split <;> try rfl
   split <;> rfl
 
+@[simp] theorem core_wakeGetter (s : St) (t : Tid) : core (s.wakeGetter t) = core s := by
+  unfold St.wakeGetter
+  split <;> rfl
+
 @[simp] theorem core_put (s : St) (m : Nat) : core (s.put m) = core s := by
   unfold St.put
-  simp only
-  split <;> split <;> rfl
+  rw [core_wakeGetter, core_wakeGetter]; rfl
 
 @[simp] theorem core_initiateClose (s : St) : core s.initiateClose = core s := by
   unfold St.initiateClose
@@ -109,105 +112,96 @@ structure PreClose (s : St) (t : Tid) (c : Cont) : Prop where
   closed : s.closed = true
   stage : ∃ pc, s.cstage = .body t pc c
   phase0 : monRun s.trace = 0
+  qclosed : s.qClosed = true
 
 theorem PreClose.of_core {s s' : St} {t : Tid} {c : Cont} (h : core s' = core s) (p : PreClose s t c) : PreClose s' t c := by
   simp only [core, Prod.mk.injEq] at h
-  obtain ⟨h1, h2, _, h4⟩ := h
-  exact ⟨by rw [h1]; exact p.closed, by rw [h2]; exact p.stage, by rw [h4]; exact p.phase0⟩
+  obtain ⟨h1, h2, h3, h4⟩ := h
+  exact ⟨by rw [h1]; exact p.closed, by rw [h2]; exact p.stage, by rw [h4]; exact p.phase0, by rw [h3]; exact p.qclosed⟩
 
-theorem execClose_InvA (cfg : Cfg) (t : Tid) (c : Cont) :
-    ∀ (fuel pc : Nat) (s : St), PreClose s t c → (s.qClosed = true ∨ (pc = 0 ∧ 0 < fuel)) →
-      InvA cfg (execClose cfg s t c fuel pc) := by
+/-- **Proof rule for the close body.** To show `Q` of the state in which `execClose` stops, it is enough that `P` is kept
+    by the stage bookkeeping and that `Q` holds where the closer suspends, where the body ends, and (vacuously) where
+    the fuel would run out. -/
+theorem execClose_rule (cfg : Cfg) (t : Tid) (c : Cont) (P Q : St → Prop)
+    (hd : ∀ s, P s → P { s with dispSet := false })
+    (hr : ∀ s, P s → P { s with rStopped := true })
+    (hsusp : ∀ s x pc, P s → stopTarget pc = some x → x ≠ t → alive (s.status x) = true → Q (suspendOn s t x pc c))
+    (htail : ∀ s, P s → Q (closeTail cfg s t c))
+    (hfuel : ∀ s, P s → Q s) :
+    ∀ (fuel pc : Nat) (s : St), P s → Q (execClose cfg s t c fuel pc) := by
   intro fuel
   induction fuel with
-  | zero =>
-    intro pc s p hq
-    have hq' : s.qClosed = true := by
-      rcases hq with h | ⟨_, h⟩
-      · exact h
-      · omega
-    obtain ⟨pc0, hs⟩ := p.stage
-    exact ⟨by simp [execClose, p.closed, hs], by intro _; exact hq', by simp [execClose, p.phase0, hs, phaseOf],
-      by simp [execClose, hs]⟩
+  | zero => intro pc s p; exact hfuel s p
   | succ fuel ih =>
-    intro pc s p hq
+    intro pc s p
     unfold execClose
     cases hst : stopTarget pc with
     | some x =>
       simp only
-      -- the state after the stage-entry effect
-      have hq1 : (if pc = 0 then { s with qClosed := true } else s).qClosed = true := by
-        split
-        · rfl
-        · rcases hq with h | ⟨h, _⟩
-          · exact h
-          · contradiction
-      have p1 : PreClose (if pc = 0 then { s with qClosed := true } else s) t c := by
-        split
-        · exact ⟨p.closed, p.stage, p.phase0⟩
-        · exact p
-      generalize (if pc = 0 then { s with qClosed := true } else s) = s1 at hq1 p1
       split
-      · exact ih 6 s1 p1 (Or.inl hq1)
+      · exact ih 6 s p
       · split
         · apply ih
-          · have p2 : PreClose (if pc = 0 then { s1 with dispSet := false } else s1) t c := by
-              split
-              · exact ⟨p1.closed, p1.stage, p1.phase0⟩
-              · exact p1
+          have p2 : P (if pc = 0 then { s with dispSet := false } else s) := by
             split
-            · exact ⟨p2.closed, p2.stage, p2.phase0⟩
-            · exact p2
-          · left
-            split <;> split <;> exact hq1
-        · refine ⟨?_, ?_, ?_, by simp⟩
-          · simp [St.setProg, St.setStatus]
-            have := p1.closed
-            have hc : core (s1.cancelTask x) = core s1 := core_cancelTask s1 x
-            simp only [core, Prod.mk.injEq] at hc
-            rw [hc.1]; exact this
-          · intro _
-            have hc : core (s1.cancelTask x) = core s1 := core_cancelTask s1 x
-            simp only [core, Prod.mk.injEq] at hc
-            show (s1.cancelTask x).qClosed = true
-            rw [hc.2.2.1]; exact hq1
-          · have hc : core (s1.cancelTask x) = core s1 := core_cancelTask s1 x
-            simp only [core, Prod.mk.injEq] at hc
-            show monRun (s1.cancelTask x).trace = phaseOf cfg (.body t (pc + 1) c)
-            rw [hc.2.2.2]; exact p1.phase0
+            · exact hd s p
+            · exact p
+          split
+          · exact hr _ p2
+          · exact p2
+        · rename_i hx
+          simp only [Bool.or_eq_true, decide_eq_true_eq, Bool.not_eq_true', not_or] at hx
+          exact hsusp s x pc p hst hx.1 (by simpa using hx.2)
     | none =>
       simp only
-      have hpc : pc ≠ 0 := by intro h; subst h; simp [stopTarget] at hst
-      have hq' : s.qClosed = true := by
-        rcases hq with h | ⟨h, _⟩
-        · exact h
-        · exact absurd h hpc
       split
-      · exact ih 6 _ ⟨p.closed, p.stage, p.phase0⟩ (Or.inl hq')
-      · -- transport.close(); close callback
-        have ph1 : monRun (s.emit .tclose).trace = 1 := by
-          show monRun (s.trace ++ [.tclose]) = 1
-          rw [monRun_append, p.phase0]; rfl
-        split
-        · rename_i hcb
-          have hcb' : cfg.hasCb = false := by simpa using hcb
-          apply InvA.runCont
-          exact ⟨by simp [St.emit, p.closed], fun _ => hq', by
-            show monRun (s.emit .tclose).trace = phaseOf cfg .finished
-            rw [ph1]; simp [phaseOf, hcb'], by simp [St.emit]⟩
-        · rename_i hcb
-          have hcb' : cfg.hasCb = true := by simpa using hcb
-          have ph2 : monRun ((s.emit .tclose).emit .cbEnter).trace = 2 := by
-            show monRun ((s.emit .tclose).trace ++ [.cbEnter]) = 2
-            rw [monRun_append, ph1]; rfl
-          split
-          · exact ⟨by simp [St.emit, St.setProg, St.setStatus, p.closed], fun _ => hq', by
-              show monRun ((s.emit .tclose).emit .cbEnter).trace = phaseOf cfg (.cb t _ c)
-              rw [ph2]; rfl, fun _ => hcb'⟩
-          · apply InvA.runCont
-            exact ⟨by simp [St.emit, p.closed], fun _ => hq', by
-              show monRun (((s.emit .tclose).emit .cbEnter).trace ++ [.cbExit]) = phaseOf cfg .finished
-              rw [monRun_append, ph2]; simp [phaseOf, hcb', mon], by simp [St.emit]⟩
+      · exact ih 6 _ (hr s p)
+      · exact htail s p
+
+theorem closeTail_InvA {cfg : Cfg} {s : St} {t : Tid} {c : Cont} (p : PreClose s t c) : InvA cfg (closeTail cfg s t c) := by
+  unfold closeTail
+  have ph1 : monRun (s.emit .tclose).trace = 1 := by
+    show monRun (s.trace ++ [.tclose]) = 1
+    rw [monRun_append, p.phase0]; rfl
+  simp only
+  split
+  · rename_i hcb
+    have hcb' : cfg.hasCb = false := by simpa using hcb
+    apply InvA.runCont
+    exact ⟨by simp [St.emit, p.closed], fun _ => p.qclosed, by
+      show monRun (s.emit .tclose).trace = phaseOf cfg .finished
+      rw [ph1]; simp [phaseOf, hcb'], by simp⟩
+  · rename_i hcb
+    have hcb' : cfg.hasCb = true := by simpa using hcb
+    have ph2 : monRun ((s.emit .tclose).emit .cbEnter).trace = 2 := by
+      show monRun ((s.emit .tclose).trace ++ [.cbEnter]) = 2
+      rw [monRun_append, ph1]; rfl
+    split
+    · exact ⟨by simp [St.emit, St.setProg, St.setStatus, p.closed], fun _ => p.qclosed, by
+        show monRun ((s.emit .tclose).emit .cbEnter).trace = phaseOf cfg (.cb t _ c)
+        rw [ph2]; rfl, fun _ => hcb'⟩
+    · apply InvA.runCont
+      exact ⟨by simp [St.emit, p.closed], fun _ => p.qclosed, by
+        show monRun (((s.emit .tclose).emit .cbEnter).trace ++ [.cbExit]) = phaseOf cfg .finished
+        rw [monRun_append, ph2]; simp [phaseOf, hcb', mon], by simp⟩
+
+theorem execClose_InvA (cfg : Cfg) (t : Tid) (c : Cont) (fuel pc : Nat) (s : St) (p : PreClose s t c) :
+    InvA cfg (execClose cfg s t c fuel pc) := by
+  refine execClose_rule cfg t c (fun s => PreClose s t c) (InvA cfg) ?_ ?_ ?_ ?_ ?_ fuel pc s p
+  · intro s p; exact ⟨p.closed, p.stage, p.phase0, p.qclosed⟩
+  · intro s p; exact ⟨p.closed, p.stage, p.phase0, p.qclosed⟩
+  · intro s x pc p _ _ _
+    have hc : core (s.cancelTask x) = core s := core_cancelTask s x
+    simp only [core, Prod.mk.injEq] at hc
+    refine ⟨?_, ?_, ?_, by simp [suspendOn]⟩
+    · simp only [suspendOn, St.setProg, St.setStatus, hc.1, p.closed]; simp
+    · intro _; show (s.cancelTask x).qClosed = true; rw [hc.2.2.1]; exact p.qclosed
+    · show monRun (s.cancelTask x).trace = phaseOf cfg (.body t (pc + 1) c)
+      rw [hc.2.2.2]; exact p.phase0
+  · intro s p; exact closeTail_InvA p
+  · intro s p
+    obtain ⟨pc0, hs⟩ := p.stage
+    exact ⟨by simp [p.closed, hs], fun _ => p.qclosed, by rw [p.phase0, hs]; rfl, by simp [hs]⟩
 
 theorem enterClose_InvA {cfg : Cfg} {s : St} (i : InvA cfg s) (t : Tid) (c : Cont) :
     InvA cfg (enterClose cfg s t c) := by
@@ -220,8 +214,7 @@ theorem enterClose_InvA {cfg : Cfg} {s : St} (i : InvA cfg s) (t : Tid) (c : Con
       · exact h
       · exact absurd (i.closed_iff.mpr h) hc
     apply execClose_InvA
-    · exact ⟨rfl, ⟨0, rfl⟩, by show monRun s.trace = 0; rw [i.phase, hidle]; rfl⟩
-    · right; exact ⟨rfl, by omega⟩
+    exact ⟨rfl, ⟨0, rfl⟩, by show monRun s.trace = 0; rw [i.phase, hidle]; rfl, rfl⟩
 
 theorem stepInClose_InvA {cfg : Cfg} {s : St} (i : InvA cfg s) (t : Tid) (b : Bool) :
     InvA cfg (stepInClose cfg s t b) := by
@@ -236,10 +229,9 @@ theorem stepInClose_InvA {cfg : Cfg} {s : St} (i : InvA cfg s) (t : Tid) (b : Bo
       have hq : s.qClosed = true := i.qclosed hne
       have hph : monRun s.trace = 0 := by rw [i.phase, hs]; rfl
       apply execClose_InvA
-      · split
-        · exact ⟨hcl, ⟨pc, hs⟩, hph⟩
-        · exact ⟨hcl, ⟨pc, hs⟩, hph⟩
-      · left; split <;> exact hq
+      split
+      · exact ⟨hcl, ⟨pc, hs⟩, hph, hq⟩
+      · exact ⟨hcl, ⟨pc, hs⟩, hph, hq⟩
     · exact i
   · rename_i t' k c hs
     have hne : s.cstage ≠ .idle := by rw [hs]; simp
@@ -279,14 +271,26 @@ theorem InvA.emit_msgEnter {cfg : Cfg} {s : St} (i : InvA cfg s) (hq : s.qClosed
   show monRun (s.trace ++ [.msgEnter n]) = phaseOf cfg s.cstage
   rw [monRun_append, i.phase, hidle]; rfl
 
-/-- closing tactic for goals `InvA cfg s'` where `s'` is `s` (with `i : InvA cfg s` in scope) changed outside the
+/-- An invariant that reads only the core of the state and is kept by the close body: the whole `step` keeps it. -/
+structure CoreInv (cfg : Cfg) (J : St → Prop) : Prop where
+  of_core : ∀ {s s' : St}, core s' = core s → J s → J s'
+  emit_neutral : ∀ {s : St} {o : Obs}, neutral o = true → J s → J (s.emit o)
+  emit_msgEnter : ∀ (s : St) (n : Nat), s.qClosed = false → J s → J (s.emit (.msgEnter n))
+  enterClose' : ∀ {s : St}, J s → ∀ (t : Tid) (c : Cont), J (enterClose cfg s t c)
+  stepInClose' : ∀ {s : St}, J s → ∀ (t : Tid) (b : Bool), J (stepInClose cfg s t b)
+
+theorem CoreInv.of_core_emit {cfg : Cfg} {J : St → Prop} (h : CoreInv cfg J) {s s' : St} {o : Obs}
+    (hc : core s' = (s.closed, s.cstage, s.qClosed, s.trace ++ [o])) (hn : neutral o = true) (i : J s) : J s' :=
+  h.of_core (s := s.emit o) hc (h.emit_neutral hn i)
+
+/-- closing tactic for goals `J s'` where `s'` is `s` (with `i : J s` in scope) changed outside the
     core, possibly after emitting one neutral observable -/
 macro "inva" i:ident : tactic => `(tactic| first
   | exact $i
-  | (refine InvA.of_core ?_ $i; rfl)
-  | (refine InvA.of_core_emit (o := ?o) ?h ?hn $i; (case h => rfl); (case hn => rfl)))
+  | (refine CoreInv.of_core ‹CoreInv _ _› ?_ $i; rfl)
+  | (refine CoreInv.of_core_emit ‹CoreInv _ _› (o := ?o) ?h ?hn $i; (case h => rfl); (case hn => rfl)))
 
-theorem stepReader_InvA {cfg : Cfg} {s : St} (i : InvA cfg s) : InvA cfg (stepReader cfg s) := by
+theorem stepReader_J {cfg : Cfg} {J : St → Prop} (h : CoreInv cfg J) {s : St} (i : J s) : J (stepReader cfg s) := by
   unfold stepReader
   split
   · inva i
@@ -294,25 +298,25 @@ theorem stepReader_InvA {cfg : Cfg} {s : St} (i : InvA cfg s) : InvA cfg (stepRe
     · exact i
     · rename_i f rest _
       cases f with
-      | msg n => exact InvA.of_core (core_put _ n) (by inva i)
+      | msg n => exact h.of_core (core_put _ n) (by inva i)
       | hb => inva i
-      | logout => exact enterClose_InvA (by inva i) _ _
-      | bad => exact enterClose_InvA (by inva i) _ _
+      | logout => exact h.enterClose' (by inva i) _ _
+      | bad => exact h.enterClose' (by inva i) _ _
 
-theorem dispHandle_InvA {cfg : Cfg} {s : St} (i : InvA cfg s) (n : Nat) : InvA cfg (dispHandle cfg s n) := by
+theorem dispHandle_J {cfg : Cfg} {J : St → Prop} (h : CoreInv cfg J) {s : St} (i : J s) (n : Nat) : J (dispHandle cfg s n) := by
   unfold dispHandle
   split
   · inva i
   · inva i
-  · exact enterClose_InvA i _ _
-  · have i2 : InvA cfg s.initiateClose := InvA.of_core (core_initiateClose _) i
+  · exact h.enterClose' i _ _
+  · have i2 : J s.initiateClose := h.of_core (core_initiateClose _) i
     inva i2
   · inva i
-  · have i2 : InvA cfg (s.emit (.write .reply)).startHeartbeats := by inva i
+  · have i2 : J (s.emit (.write .reply)).startHeartbeats := by inva i
     inva i2
-  · exact enterClose_InvA (by inva i) _ _
+  · exact h.enterClose' (by inva i) _ _
 
-theorem stepDisp_InvA {cfg : Cfg} {s : St} (i : InvA cfg s) : InvA cfg (stepDisp cfg s) := by
+theorem stepDisp_J {cfg : Cfg} {J : St → Prop} (h : CoreInv cfg J) {s : St} (i : J s) : J (stepDisp cfg s) := by
   unfold stepDisp
   split
   · inva i
@@ -320,10 +324,10 @@ theorem stepDisp_InvA {cfg : Cfg} {s : St} (i : InvA cfg s) : InvA cfg (stepDisp
     have hq' : s.qClosed = false := by simpa using hq
     split
     · inva i
-    · apply dispHandle_InvA
-      exact InvA.of_core (s := s.emit (.msgEnter _)) rfl (i.emit_msgEnter hq' _)
+    · apply dispHandle_J h
+      exact h.of_core (s := s.emit (.msgEnter _)) rfl (h.emit_msgEnter _ _ hq' i)
 
-theorem stepMon_InvA {cfg : Cfg} {s : St} (i : InvA cfg s) (b : Bool) : InvA cfg (stepMon cfg s b) := by
+theorem stepMon_J {cfg : Cfg} {J : St → Prop} (h : CoreInv cfg J) {s : St} (i : J s) (b : Bool) : J (stepMon cfg s b) := by
   unfold stepMon
   split
   · split
@@ -331,26 +335,26 @@ theorem stepMon_InvA {cfg : Cfg} {s : St} (i : InvA cfg s) (b : Bool) : InvA cfg
     · inva i
   · split
     · inva i
-    · exact enterClose_InvA i _ _
+    · exact h.enterClose' i _ _
 
-theorem loginResume_InvA {cfg : Cfg} {s : St} (i : InvA cfg s) (t : Tid) (u : Nat) :
-    InvA cfg (loginResume cfg s t u) := by
+theorem loginResume_J {cfg : Cfg} {J : St → Prop} (h : CoreInv cfg J) {s : St} (i : J s) (t : Tid) (u : Nat) :
+    J (loginResume cfg s t u) := by
   unfold loginResume
   split
   · rename_i n _
-    have i1 : InvA cfg ({ s with vres := none, rcvBusy := false, taken := s.taken ++ [n] } : St) := by inva i
+    have i1 : J ((({ s with vres := none, rcvBusy := false, taken := s.taken ++ [n] } : St)).emit (.loginReply n)) := by inva i
     simp only
     split
-    · have i2 := InvA.of_core (core_startDispatching _ cfg) (InvA.of_core (core_startHeartbeats _) i1)
+    · have i2 := h.of_core (core_startDispatching _ cfg) (h.of_core (core_startHeartbeats _) i1)
       inva i2
-    · exact enterClose_InvA i1 _ _
+    · exact h.enterClose' i1 _ _
   · split
     · inva i
-    · exact enterClose_InvA (by inva i) _ _
+    · exact h.enterClose' (by inva i) _ _
 
-theorem stepRun_InvA {cfg : Cfg} {s : St} (i : InvA cfg s) (t : Tid) : InvA cfg (stepRun cfg s t) := by
+theorem stepRun_J {cfg : Cfg} {J : St → Prop} (h : CoreInv cfg J) {s : St} (i : J s) (t : Tid) : J (stepRun cfg s t) := by
   unfold stepRun
-  have i0 : InvA cfg { s with imm := none } := by inva i
+  have i0 : J { s with imm := none } := by inva i
   generalize ({ s with imm := none } : St) = s0 at i0
   simp only
   split
@@ -361,35 +365,35 @@ theorem stepRun_InvA {cfg : Cfg} {s : St} (i : InvA cfg s) (t : Tid) : InvA cfg 
     · split <;> inva i0
     · split
       · inva i0
-      · exact enterClose_InvA (by inva i0) _ _
-    · exact stepInClose_InvA i0 _ _
+      · exact h.enterClose' (by inva i0) _ _
+    · exact h.stepInClose' i0 _ _
     · inva i0
   · -- ready
     split
     · split
-      · exact stepReader_InvA i0
+      · exact stepReader_J h i0
       · exact i0
     · split
-      · exact stepDisp_InvA i0
+      · exact stepDisp_J h i0
       · exact i0
     · split <;> inva i0
     · inva i0
     · split
-      · exact stepMon_InvA i0 _
+      · exact stepMon_J h i0 _
       · split
-        · exact stepMon_InvA i0 _
+        · exact stepMon_J h i0 _
         · exact i0
-    · exact enterClose_InvA i0 _ _
-    · exact stepInClose_InvA i0 _ _
+    · exact h.enterClose' i0 _ _
+    · exact h.stepInClose' i0 _ _
     · split <;> inva i0
     · split
       · inva i0
       · split <;> inva i0
-    · exact loginResume_InvA i0 _ _
+    · exact loginResume_J h i0 _ _
     · exact i0
   · exact i0
 
-theorem startRecv_InvA {cfg : Cfg} {s : St} (i : InvA cfg s) (u : Nat) (b : Bool) : InvA cfg (startRecv s u b) := by
+theorem startRecv_J {cfg : Cfg} {J : St → Prop} (h : CoreInv cfg J) {s : St} (i : J s) (u : Nat) (b : Bool) : J (startRecv s u b) := by
   unfold startRecv
   split
   · exact i
@@ -401,36 +405,36 @@ theorem startRecv_InvA {cfg : Cfg} {s : St} (i : InvA cfg s) (u : Nat) (b : Bool
         · split <;> inva i
         · inva i
 
-theorem step_InvA {cfg : Cfg} {s : St} (i : InvA cfg s) (ev : Ev) : InvA cfg (step cfg s ev) := by
+theorem step_J {cfg : Cfg} {J : St → Prop} (h : CoreInv cfg J) {s : St} (i : J s) (ev : Ev) : J (step cfg s ev) := by
   cases ev with
   | connect =>
     simp only [step]
     split
     · exact i
     · split
-      · exact InvA.of_core (core_startDispatching _ _) (by inva i)
+      · exact h.of_core (core_startDispatching _ _) (by inva i)
       · inva i
   | data fs => inva i
-  | eof => exact InvA.of_core (core_initiateClose _) i
+  | eof => exact h.of_core (core_initiateClose _) i
   | run t =>
     simp only [step]
     split
-    · exact stepRun_InvA i t
+    · exact stepRun_J h i t
     · exact i
   | callClose u =>
     simp only [step]
     split
     · exact i
-    · exact enterClose_InvA (by inva i) _ _
-  | callInitiateClose => exact InvA.of_core (core_initiateClose _) i
+    · exact h.enterClose' (by inva i) _ _
+  | callInitiateClose => exact h.of_core (core_initiateClose _) i
   | callLogout =>
-    have i1 : InvA cfg ({ (s.emit (.write .logout)) with pingL := true }) := by inva i
-    exact InvA.of_core (core_initiateClose _) i1
+    have i1 : J ({ (s.emit (.write .logout)) with pingL := true }) := by inva i
+    exact h.of_core (core_initiateClose _) i1
   | callRecv u =>
     simp only [step]
     split
     · exact i
-    · exact startRecv_InvA i u false
+    · exact startRecv_J h i u false
   | callRecvNowait u =>
     simp only [step]
     split
@@ -442,9 +446,19 @@ theorem step_InvA {cfg : Cfg} {s : St} (i : InvA cfg s) (ev : Ev) : InvA cfg (st
     simp only [step]
     split
     · exact i
-    · exact startRecv_InvA (by inva i) u true
+    · exact startRecv_J h (by inva i) u true
   | callSend => inva i
-  | cancel u => exact InvA.of_core (core_cancelTask _ _) i
+  | cancel u => exact h.of_core (core_cancelTask _ _) i
+
+theorem InvA.coreInv (cfg : Cfg) : CoreInv cfg (InvA cfg) where
+  of_core := InvA.of_core
+  emit_neutral := fun hn i => i.emit_neutral hn
+  emit_msgEnter := fun _ n hq i => i.emit_msgEnter hq n
+  enterClose' := fun i t c => enterClose_InvA i t c
+  stepInClose' := fun i t b => stepInClose_InvA i t b
+
+theorem step_InvA {cfg : Cfg} {s : St} (i : InvA cfg s) (ev : Ev) : InvA cfg (step cfg s ev) :=
+  step_J (InvA.coreInv cfg) i ev
 
 theorem InvA.init (cfg : Cfg) : InvA cfg {} :=
   ⟨by simp, by simp, rfl, by simp⟩
